@@ -21,7 +21,7 @@ META = {
 def check(ctx):
     M = "emu_base.math.krylov_energy_min."
     conv.result_honest(ctx, M + "_lowest_eigenvector_krylov_method", M + "KrylovEnergyResult",
-                       {"residual_tolerance", "norm_tolerance"}, loop_iters=(0, 1))
+                       {"residual_tolerance", "norm_tolerance"}, loop_iters=(0, 1), vec_param="v_init")
     conv.entry_raises(ctx, M + "krylov_energy_minimization", {"converged", "happy_breakdown"},
                       "krylov_energy_minimization")
     conv.who_may_call(ctx, {M + "_lowest_eigenvector_krylov_method": {M + "krylov_energy_minimization_impl"},
